@@ -233,8 +233,7 @@ func (fx *Fixture) Observe() string {
 		fmt.Fprintf(&sb, "spub%d=%x/%x;", i, k.Bytes(), k.Point().UncompressedBytes())
 	}
 	for i, p := range fx.points {
-		x, y, z, v := secp256k1.VerifRawCoords(p)
-		fmt.Fprintf(&sb, "pt%d=%x/%x%x%x%v;", i, p.UncompressedBytes(), x, y, z, v)
+		fmt.Fprintf(&sb, "pt%d=%x/%x;", i, p.UncompressedBytes(), p.CompressedBytes())
 	}
 	for i, s := range fx.scalars {
 		fmt.Fprintf(&sb, "sc%d=%x;", i, s.Bytes())
@@ -248,6 +247,18 @@ func (fx *Fixture) Observe() string {
 	}
 	for i := range fx.sigR {
 		fmt.Fprintf(&sb, "sig%d=%x/%x/%d;", i, fx.sigR[i].Bytes(), fx.sigS[i].Bytes(), fx.sigV[i])
+	}
+	return sb.String()
+}
+
+// ObserveRaw returns the raw projective coordinates of the shared points.
+// Probe only: a correctly synchronised in-place renormalisation would change
+// them without breaking the property.
+func (fx *Fixture) ObserveRaw() string {
+	var sb strings.Builder
+	for i, p := range fx.points {
+		x, y, z, v := secp256k1.VerifRawCoords(p)
+		fmt.Fprintf(&sb, "pt%d=%x%x%x%v;", i, x, y, z, v)
 	}
 	return sb.String()
 }
